@@ -193,7 +193,7 @@ func checkEq(b *roaring.Bitmap, m *ISet) string {
 func storageHash(b *roaring.Bitmap) uint64 {
 	v := b.VerifView()
 	h := uint64(1469598103934665603)
-	mixin := func(x uint64) { h = (h ^ x) * 1099511628211 }
+	mixin := func(x uint64) { h = hstep(h, x) }
 	for i, s := range v.Slots {
 		mixin(uint64(s.Key))
 		mixin(uint64(s.Kind))
@@ -233,7 +233,7 @@ func kindVectorHash(b *roaring.Bitmap) uint64 {
 		case s.Card == 4096:
 			x |= 48
 		}
-		h = (h ^ x) * 1099511628211
+		h = hstep(h, x)
 	}
 	return h
 }
